@@ -32,13 +32,24 @@ Proof.
   eapply all_programs_built; eauto. apply wl_agrees_fragment_proof; assumption.
 Qed.
 
-(* on the fragment the K2 class and the label condition are vacuous *)
+(* on the fragment the K2 class is vacuous *)
 Theorem full_fragment_plain_proof : forall sym_hash hstate host, declines_defer hstate host ->
   forall e vin h n v h' t,
-  frag_e2e e = true -> printable e = true -> known_K1 e = false ->
+  frag_e2e e = true -> printable e = true -> known_K1 e = false -> labels_ok e = true ->
+  eval_prog sym_hash hstate host n e vin h = ODone v (h', t) ->
+  reaches_built sym_hash hstate host e vin h v h' t.
+Proof.
+  intros sym_hash hstate host Hd e vin h n v h' t F P K1 L E.
+  eapply full_fragment_proof; eauto. apply (frag_no_K2 LV). exact F.
+Qed.
+
+(* ... and without nested expressions (levels 0-3) so is the label condition *)
+Theorem full_fragment_operators_proof : forall sym_hash hstate host, declines_defer hstate host ->
+  forall e vin h n v h' t,
+  efrag 3 e = true -> printable e = true -> known_K1 e = false ->
   eval_prog sym_hash hstate host n e vin h = ODone v (h', t) ->
   reaches_built sym_hash hstate host e vin h v h' t.
 Proof.
   intros sym_hash hstate host Hd e vin h n v h' t F P K1 E.
-  eapply full_fragment_proof; eauto; [apply (frag_no_K2 3); exact F|apply frag_labels_ok; exact F].
+  eapply full_fragment_plain_proof; eauto; [apply (efrag_mono 3 LV); [unfold LV; lia|exact F]|apply frag3_labels_ok; exact F].
 Qed.
